@@ -655,6 +655,20 @@ impl Context {
             (Literal::Path(p), ty) => {
                 let ident_ty = self.codegen_ty(p.did);
 
+                // a const of list / set / map type is an array or a lazily initialised static,
+                // never the Vec / AHashSet / AHashMap a field (or an element of another
+                // container) holds: lower the const's literal at the target type instead
+                if ident_ty != *ty
+                    && matches!(
+                        ident_ty,
+                        CodegenTy::Array(_, _) | CodegenTy::LazyStaticRef(_)
+                    )
+                {
+                    if let Some(Item::Const(c)) = self.item(p.did).as_deref() {
+                        return self.lit_as_rvalue(&c.lit, ty);
+                    }
+                }
+
                 self.ident_into_ty(p.did, &ident_ty, ty)
             }
             (Literal::String(s), CodegenTy::Str) => {
